@@ -2,6 +2,7 @@ package props
 
 import (
 	"bytes"
+	"errors"
 	"io"
 	"os"
 	"path/filepath"
@@ -114,7 +115,7 @@ var corpus = [][]string{
 	},
 	6: { // free text
 		"  hello \t\n world  ", "a &amp; b &#39;c&#x27; &quot;d&quot; &unknown; &lt", "text/html; charset=UTF-8; q=0.9", "data:text/plain;base64,aGVsbG8=", "data:,a%20b", "data:;charset=utf-8,hello", "data:;charset=latin1;x=y,a", "data:;a=b,%41%42", "data:;base64;q=1,QQ==", "http://x/y z?q=ä&r=1", "12.5px", "1e3em", "ÀÉÎ mixed Case", "line1\nline2\r\nline3\tcol",
-		"first line\nsecond line é\nthird line 漢字 here\n\nfifth", "a\rb\r\nc\n\rd\u2028e\u2029f", "data:image/svg+xml;charset=utf-8,%3Csvg%3E", "DATA:;BASE64,QQ==", "application/json;charset=\"utf-8\" ; boundary=x", "&varphi;&#931;&#x3A3;&AMP&amp;amp;", "url(%E2%82%AC)?a=b&c=d#frag", "-1.5e-3% +.5E2px 100", "\t\t  \n\n x \x0c y  ", "ＡＢＣ abc ÄÖÜ äöü ß ǅ", "x\x00y\x00", "0123456789abcdefghijklmnopqrstuvwxyz0123456789ABCDEFGHIJKLMNOPQRSTUVWXYZ-_.~",
+		"first line\nsecond line é\nthird line 漢字 here\n\nfifth", "a\rb\r\nc\n\rd\u2028e\u2029f", "data:image/svg+xml;charset=utf-8,%3Csvg%3E", "DATA:;BASE64,QQ==", "application/json;charset=\"utf-8\" ; boundary=x", "&varphi;&#931;&#x3A3;&AMP&amp;amp;", "a &hellip; b &middot; c &CounterClockwiseContourIntegral; d &DiacriticalAcute; &amp;", "&middot;&hellip;&lt;&quot;", "url(%E2%82%AC)?a=b&c=d#frag", "-1.5e-3% +.5E2px 100", "\t\t  \n\n x \x0c y  ", "ＡＢＣ abc ÄÖÜ äöü ß ǅ", "x\x00y\x00", "0123456789abcdefghijklmnopqrstuvwxyz0123456789ABCDEFGHIJKLMNOPQRSTUVWXYZ-_.~",
 	},
 }
 
@@ -124,6 +125,8 @@ var corpus = [][]string{
 // 3 of 4 conflicting access pairs became "ordered" and the detector went blind (found with
 // seeded change c20a-2, see DESIGN.md 10.2). Only strconv and append are used.
 var sharedEntities = map[string][]byte{"amp": []byte("&"), "lt": []byte("<"), "gt": []byte(">"), "quot": []byte("\""), "apos": []byte("'"), "varphi": []byte("phi"), "nbsp": []byte("\u00a0")}
+var sharedEntitiesXML = map[string][]byte{"amp": []byte("&"), "lt": []byte("<"), "gt": []byte(">"), "quot": []byte("\""), "apos": []byte("'")}
+var sharedEntitiesLong = map[string][]byte{"amp": []byte("&"), "hellip": []byte("\u2026"), "middot": []byte("\u00b7"), "DiacriticalAcute": []byte("\u00b4"), "CounterClockwiseContourIntegral": []byte("\u2233"), "varphi": []byte("phi")}
 var sharedRevEntities = map[byte][]byte{'\'': []byte("&#39;"), '"': []byte("&#34;")}
 
 type tr struct {
@@ -204,13 +207,19 @@ func panicText(r interface{}) string {
 
 // yieldReader is a private chunking reader with a yield point per Read.
 type yieldReader struct {
-	data  []byte
-	off   int
-	chunk int
+	data   []byte
+	off    int
+	chunk  int
+	failAt int // >0: after this many bytes the reader fails with errTaskReader (0: never)
 }
+
+var errTaskReader = errors.New("task reader failed")
 
 func (r *yieldReader) Read(p []byte) (int, error) {
 	sched.Yield(sched.SiteRead)
+	if r.failAt > 0 && r.off >= r.failAt {
+		return 0, errTaskReader
+	}
 	if r.off >= len(r.data) {
 		return 0, io.EOF
 	}
@@ -437,7 +446,20 @@ func runWorkloadIn(in wlInput, scratch []byte) (out []byte) {
 		// entity tables are shared read-only configuration, as real callers keep them in
 		// package-level variables; the buffers they are applied to are private
 		ents, rev := sharedEntities, sharedRevEntities
+		switch in.opt % 3 {
+		case 1:
+			ents = sharedEntitiesXML // only the five short XML names
+		case 2:
+			ents = sharedEntitiesLong // long HTML names
+		}
 		t.add("ents", parse.ReplaceEntities(cp(), ents, rev))
+		// the same fixed text through every table, in an order that depends on the task
+		tables := []map[string][]byte{sharedEntitiesXML, sharedEntitiesLong, sharedEntities}
+		for k := 0; k < 3; k++ {
+			call()
+			tb := tables[(k+in.opt)%3]
+			t.add("ents-fixed", (k+in.opt)%3, parse.ReplaceEntities([]byte("x &amp; &hellip; &CounterClockwiseContourIntegral; &middot; &varphi; &#39; y"), tb, rev))
+		}
 		call()
 		t.add("wsents", parse.ReplaceMultipleWhitespaceAndEntities(cp(), ents, rev))
 		call()
@@ -517,6 +539,11 @@ func runWorkloadIn(in wlInput, scratch []byte) (out []byte) {
 			line, col, ctx := parse.Position(rd, off)
 			t.add("pos", off, line, col, ctx)
 		}
+		if in.opt&32 != 0 && len(d) > 1 {
+			call()
+			line, col, ctx := parse.Position(&yieldReader{data: d, chunk: 2, failAt: 1 + in.opt%len(d)}, len(d)/2)
+			t.add("pos-failed-reader", line, col, ctx)
+		}
 		call()
 		e := parse.NewError(&yieldReader{data: d, chunk: 3}, len(d)/3, "msg %d", in.opt)
 		t.add("error", e.Error())
@@ -547,6 +574,13 @@ func runWorkloadIn(in wlInput, scratch []byte) (out []byte) {
 			z.Restore()
 		}
 		script(parse.NewInput(&yieldReader{data: d, chunk: 1 + in.opt%7}))
+		if in.opt&32 != 0 && len(d) > 1 {
+			// a reader that delivers part of the data and then fails: the Input reports the
+			// error with no data; whatever the library buffered must not reach anybody else
+			script(parse.NewInput(&yieldReader{data: d, chunk: 1 + in.opt%3, failAt: 1 + in.opt%len(d)}))
+			script(buffer.NewLexer(&yieldReader{data: d, chunk: 2, failAt: 1 + (in.opt/2)%len(d)}))
+			script(parse.NewInput(&yieldReader{data: d, chunk: 5}))
+		}
 		script(buffer.NewLexerBytes(d))
 		script(parse.NewInputString(string(d)))
 	case wlStreamLexer:
